@@ -969,3 +969,6 @@ def run_case(r, obs):
                   "Run(None, run=genf).run gives %r, genf gives %r" % (got, exp))
     else:
         raise ValueError(k)
+
+
+RULE += (' Pre-elements include Filter(Selector(raising predicate, raise_on_error=False)); the SourceEl column of the adapter matrix asks the source twice.')
